@@ -37,6 +37,9 @@ def _bounds(rng):
     lo = 10 ** rng.uniform(-3, 2)
     hi = lo * 10 ** rng.uniform(0.1, 3)
     r = rng.random()
+    if r < 0.06:
+        lo = float(rng.randint(1, 9))
+        return [lo, lo + rng.randint(1, 90)]      # whole numbers
     if r < 0.08:
         return [hi, lo]          # given in reverse order
     if r < 0.12:
@@ -81,7 +84,7 @@ def _prior_spec(rng, bounds=None, signed=False):
 
 def gen_config(rng, kind='toy'):
     cfg = {'kind': kind}
-    nm = rng.randint(2, 6)
+    nm = rng.randint(2, 6) if rng.random() < 0.9 else rng.randint(11, 13)
     no = rng.choice([0, 0, 1, 2])
     mp, op = [], []
     for i in range(nm):
@@ -552,7 +555,10 @@ def execute(case, keep_text=False):
                 ref.params[op[1]]['mode'] = op[2].lower()
                 dirty_since_compile = True
             elif k == 'set_boundary':
-                real_call(step, k, opt.set_boundary, op[1], list(op[2]))
+                b = list(op[2])
+                if all(float(x).is_integer() for x in b):
+                    b = [int(x) for x in b]       # integers are numbers too
+                real_call(step, k, opt.set_boundary, op[1], b)
                 ref.params[op[1]]['bounds'] = list(op[2])
                 dirty_since_compile = True
             elif k == 'set_factor_boundary':
@@ -600,7 +606,12 @@ def execute(case, keep_text=False):
                     vec.append(M.ref_prior_sample(c['spec'], u))
                 if direct_since_compile:
                     out.bump('probes', 'update_after_direct_write')
-                real_call(step, k, opt.update_model, vec)
+                # what samplers hand over: a list, a tuple, an ndarray, numpy
+                # scalars (chosen from the vector itself: no extra draw)
+                how = int(abs(sum(op[1])) * 1e6) % 4
+                arg = [vec, tuple(vec), np.array(vec, dtype=float),
+                       [np.float64(x) for x in vec]][how]
+                real_call(step, k, opt.update_model, arg)
                 last_vec[0] = (ref.ncompiles, list(vec))
                 out.bump('steps', 'updates')
                 fitted = set()
